@@ -150,6 +150,6 @@ def replay(rep: dict):
 
     mod = importlib.import_module(spec["module"])
     sc = getattr(mod, spec["factory"])(**spec["args"])
-    ghost, done, blocked, sched = sc.replay([tuple(x) for x in rep["order"]])
+    ghost, done, blocked, sched = sc.replay([tuple(x) for x in rep["order"]], mode=rep.get("mode", "sync"))
     hits = e2run.real_bad(sc.bad, ghost, done, blocked)
     return bool(hits) and not sched.diverged, f"hits={hits} ghost={ghost} finished={done} blocked={blocked} diverged={sched.diverged}"
